@@ -363,6 +363,49 @@ static std::string op_kpkraw(std::istringstream& is)
     return out;
 }
 
+
+// kpkeval <strong 0/1> <stm 0/1> <pawn square> : the EVALUATOR's verdict (PositionScorer::score through
+// endgame::score) for every pair of king squares: 'W' = score from the strong side's view >= VALUE_KNOWN_WIN,
+// 'D' = below, '-' = placement not constructible (overlapping squares / adjacent kings)
+static std::string op_kpkeval(std::istringstream& is)
+{
+    int strong, stm, pawn;
+    is >> strong >> stm >> pawn;
+    static PositionScorer scorer;
+    std::string out;
+    out.reserve(4096);
+    for (int sk = 0; sk < 64; ++sk)
+        for (int wk = 0; wk < 64; ++wk)
+        {
+            if (sk == wk || sk == pawn || wk == pawn || distance(Square(sk), Square(wk)) <= 1) { out.push_back('-'); continue; }
+            char board[64];
+            memset(board, 0, sizeof board);
+            board[sk] = strong == 0 ? 'K' : 'k';
+            board[wk] = strong == 0 ? 'k' : 'K';
+            board[pawn] = strong == 0 ? 'P' : 'p';
+            std::string fen;
+            for (int r = 7; r >= 0; --r)
+            {
+                int empty = 0;
+                for (int f = 0; f < 8; ++f)
+                {
+                    char c = board[r * 8 + f];
+                    if (!c) { ++empty; continue; }
+                    if (empty) { fen += char('0' + empty); empty = 0; }
+                    fen += c;
+                }
+                if (empty) fen += char('0' + empty);
+                if (r) fen += '/';
+            }
+            fen += stm == 0 ? " w - - 0 1" : " b - - 0 1";
+            Position p(fen);
+            Value v = scorer.score(p);
+            if (Color(stm) != Color(strong)) v = -v;
+            out.push_back(v >= VALUE_KNOWN_WIN ? 'W' : 'D');
+        }
+    return out;
+}
+
 static std::string dispatch_more(const std::string& op, std::istringstream& is)
 {
     if (op == "g_legal") return run_game(is, obs_legal);
@@ -375,6 +418,7 @@ static std::string dispatch_more(const std::string& op, std::istringstream& is)
     if (op == "g_key") return run_game(is, obs_key);
     if (op == "pghash") return op_pghash(is);
     if (op == "kpkraw") return op_kpkraw(is);
+    if (op == "kpkeval") return op_kpkeval(is);
     if (op == "book") return op_book(is);
     if (op == "pick") return op_pick(is);
     if (op == "pgdecode") return op_pgdecode(is);
